@@ -222,7 +222,7 @@ def predicates(case, vkind):
 
 def run(tier, seed):
     from vlib.shards import run_jobs
-    n = 6000 if tier == "quick" else 80000
+    n = 6000 if tier == "quick" else 800000
     acc, _ = run_jobs([{"module": "props.c16", "func": "shard", "kwargs": {"seed": common.derive_seed(seed, ID, i), "n": n // 16}}
                        for i in range(16)], tag="c16")
     return acc
